@@ -11,6 +11,7 @@ from .. import flowcheck
 from .. import floworacle as fo
 from .. import floworacle_r3 as f3
 from .. import floworacle_r4 as f4
+from .. import floworacle_r5 as f5
 
 LEAN_MODULES = ['Props.C03']
 TRUSTED = ['harness/flow_impl.py (yaml renderer, canonicaliser, virtual clock, scripted random.uniform)',
@@ -28,7 +29,9 @@ def run(env, res):
                 'None/0/\'\'/False/[]/{}, 12% with a malformed group body or sequence item, 35% written in another '
                 'yaml layout: flow style, JSON, first step on line 1, other indentation, single-quoted / plain / block scalars, anchors + aliases, merge keys; every 4th case runs with the root logger at DEBUG, every 8th at INFO, every 8th at NOTIFY - the log level is an input); a case is '
                 'non-trivial when the model accepts it and it terminates; distinct by canonical program text')
-    directed = [('c03-group-sequence-kinds', f4.c03_group_kinds_family, env.n(160, 100000)),
+    directed = [('c03-counter-identity', f5.c03_counter_identity_family, env.n(300, 100000)),
+                ('c04-value-forms', f5.c04_value_forms_switch, env.n(151, 100000)),
+                ('c03-group-sequence-kinds', f4.c03_group_kinds_family, env.n(160, 100000)),
                 ('c03-groups-from-loop-counter', f4.c03_group_counter_family, env.n(60, 100000)),
                 ('c02-config-in-context-twice', f4.c02_config_in_context_family, env.n(90, 100000)),
                 ('c02-jump-config-in-context', f4.c02_jump_config_in_context_family, env.n(10, 100000)),
